@@ -17,6 +17,24 @@ ASSUMPTIONS = ["scipy (from the offline wheelhouse, /verif/.deps) performs the l
 EOS_NAMES = ["vinet", "birch_murnaghan", "murnaghan"]
 
 
+def own_eos(name):
+    """Textbook closed forms, written independently of phonopy's expressions (Eulerian-strain form of Birch-Murnaghan, the
+    2 - (5 + 3 B'(x-1) - 3x) exp(...) form of Vinet, reduced-volume form of Murnaghan)."""
+    def vinet(v, E0, B0, Bp, V0):
+        x = np.cbrt(np.asarray(v, dtype=float) / V0)
+        return E0 + 2 * B0 * V0 / (Bp - 1) ** 2 * (2 - (5 + 3 * Bp * (x - 1) - 3 * x) * np.exp(-1.5 * (Bp - 1) * (x - 1)))
+
+    def birch_murnaghan(v, E0, B0, Bp, V0):
+        f = ((V0 / np.asarray(v, dtype=float)) ** (2.0 / 3) - 1) / 2
+        return E0 + 4.5 * B0 * V0 * f ** 2 * (1 + (Bp - 4) * f)
+
+    def murnaghan(v, E0, B0, Bp, V0):
+        r = np.asarray(v, dtype=float) / V0
+        return E0 + B0 * V0 * (r ** (1 - Bp) / (Bp * (Bp - 1)) + r / Bp - 1 / (Bp - 1))
+
+    return {"vinet": vinet, "birch_murnaghan": birch_murnaghan, "murnaghan": murnaghan}[name]
+
+
 def deriv(f, x, h):
     d1 = (f(x + h) - f(x - h)) / (2 * h)
     d2 = (f(x + 2 * h) - f(x - 2 * h)) / (4 * h)
@@ -39,6 +57,12 @@ def run_eos(spec):
     def E(v):
         return eos(v, E0, B0, Bp, V0)
 
+    # the function handed out under this name is THIS equation of state (not merely one with the same parameter meaning)
+    vv = V0 * np.linspace(0.7, 1.4, 29)
+    dev = np.abs(E(vv) - own_eos(spec["eos"])(vv, E0, B0, Bp, V0)).max() / (B0 * V0)
+    if dev > 1e-12:
+        return Out(ok=False, msg="get_eos(%r) is not the %s equation of state: deviates from the textbook closed form by %.3e B0 V0 "
+                   "(E0=%g B0=%g B0'=%g V0=%g)" % (spec["eos"], spec["eos"], dev, E0, B0, Bp, V0))
     h = V0 * 2e-3
 
     def P(v):
@@ -92,6 +116,7 @@ def qha_specs(draw, tier):
     return {"eos": draw(st.sampled_from(EOS_NAMES)), "key": draw(st.integers(0, 2**32 - 1)), "nT": draw(st.integers(6, 40)), "nV": draw(st.integers(5, 13)),
             "dT": draw(st.sampled_from([10.0, 25.0, 50.0])), "pressure": draw(st.sampled_from([None, None, 0.5, 3.0, 7.0, 20.0, -2.0])),
             "el": draw(st.sampled_from(["zeros", "V", "TV"])), "t_max": draw(st.sampled_from([None, None, "inner"])),
+            "tgrid": draw(st.sampled_from(["uniform", "uniform", "piecewise", "irregular"])),
             "convex": draw(st.booleans()), "container": draw(st.sampled_from(["array", "list", "readonly"])), "twice": draw(st.booleans())}
 
 
@@ -101,9 +126,14 @@ def run_qha(spec):
     from phonopy.units import EVAngstromToGPa, EvTokJmol
 
     rng = rng_from(spec["key"])
-    eos = get_eos(spec["eos"])
+    eos = own_eos(spec["eos"])  # the data are exactly the named equation of state in OUR closed form
     nT, nV = spec["nT"], spec["nV"]
     T = np.arange(nT) * spec["dT"]
+    if spec.get("tgrid") == "piecewise":  # step changes in the middle of the range
+        steps = np.where(np.arange(nT - 1) < nT // 2, spec["dT"], 4 * spec["dT"])
+        T = np.concatenate([[0.0], np.cumsum(steps)])
+    elif spec.get("tgrid") == "irregular":
+        T = np.concatenate([[0.0], np.cumsum(rng.uniform(0.3, 2.0, size=nT - 1) * spec["dT"])])
     x = T / max(T[-1], 1.0)
     V0 = 60 * (1 + rng.uniform(0.005, 0.05) * x + rng.uniform(0, 0.02) * x ** 2)
     B0 = 0.6 * (1 - rng.uniform(0.02, 0.3) * x)
@@ -194,7 +224,7 @@ def run_qha(spec):
             return Out(ok=False, msg="two consecutive analyses of the same input arrays differ")
     nontriv = nT >= 3 and (Pg is not None or spec["el"] == "TV")
     return Out(ok=True, nontrivial=nontriv, classes=[spec["eos"], "P:%s" % ("none" if Pg is None else "set"), "el:" + spec["el"],
-                                                     "tmax" if t_max else "notmax", "convex" if spec["convex"] else "concave", spec["container"]],
+                                                     "tmax" if t_max else "notmax", "tgrid:" + spec.get("tgrid", "uniform"), "convex" if spec["convex"] else "concave", spec["container"]],
                info={"err": float(max(errs.values()))})
 
 
